@@ -29,6 +29,7 @@ CS == /\ IsEv("cs")
       /\ tix' = tix \cup {E.tin, E.tout} /\ ncs' = ncs + 1
 Summary == /\ IsEv("summary") /\ UNCHANGED <<tix, ncs>>
            /\ E.foreign = 0                             \* nothing finalised by a foreign thread
+           /\ E.childlive = 0                           \* a finished thread's collector finalised everything it still managed
            /\ E.sections = ncs /\ E.plain = ncs         \* the unprotected counter lost no update
 Share == IsEv("tlsshare") /\ E.kept = 0 /\ UNCHANGED <<tix, ncs>>     \* isolation: the parent's collector does not look into a child's TLS
 Next == Plain \/ Thread \/ CS \/ Summary \/ Share
